@@ -37,6 +37,8 @@ pub fn run(args: &Args, out: Out) {
         "json-lines" => logjson::run_lines(args, out),
         "logger-threads" => logger::run_threads(args, out),
         "logwriter-run" => logfiles::run_writer(args, out),
+        "logwriter-crash" => logfiles::run_crash(args, out),
+        "logwriter-child" => logfiles::run_child(args),
         "fileset-ops" => logfiles::run_fileset(args, out),
         "cookie-set" => cookies::run_set(args, out),
         "cookie-req" => cookies::run_req(args, out),
